@@ -390,9 +390,10 @@ class ActSpec:
     veto_mod: int = 0
     throw_mod: int = 0
     throw_std: bool = False
+    wrap: str = 'none'      # none | ca:<fam> | da | ea | ld:<n> | lb:<n>
 
     def proto(self):
-        return f"{self.kind} {int(self.is_bool)} {self.veto_mod} {self.throw_mod} {int(self.throw_std)}"
+        return f"{self.kind} {int(self.is_bool)} {self.veto_mod} {self.throw_mod} {int(self.throw_std)} {self.wrap}"
 
 
 @dataclass
@@ -572,25 +573,46 @@ class Grammar:
         fams = [0] + sorted(self.fams)
         for f in fams:
             o.append(f"template< typename R > struct act{f} : tao::pegtl::nothing< R > {{}};")
+        limit_ids = {}
         for f in fams:
             table = self.acts if f == 0 else self.fams[f]
             for nid, a in sorted(table.items()):
-                if a.kind == 'none':
+                if a.kind == 'none' and a.wrap == 'none':
                     continue
                 nd = self.nodes[nid]
-                base = {('apply', False): 'act_apply_void', ('apply', True): 'act_apply_bool',
-                        ('apply0', False): 'act_apply0_void', ('apply0', True): 'act_apply0_bool'}[(a.kind, a.is_bool)]
-                o.append(f"template<> struct act{f}< {nd.cpp} > : vh::{base}< tag, {nd.cpp}, "
-                         f"{a.veto_mod}, {a.throw_mod}, {'true' if a.throw_std else 'false'} > {{}};")
+                bases = []
+                if a.kind != 'none':
+                    base = {('apply', False): 'act_apply_void', ('apply', True): 'act_apply_bool',
+                            ('apply0', False): 'act_apply0_void', ('apply0', True): 'act_apply0_bool'}[(a.kind, a.is_bool)]
+                    bases.append(f"vh::{base}< tag, {nd.cpp}, {a.veto_mod}, {a.throw_mod}, {'true' if a.throw_std else 'false'} >")
+                w = a.wrap
+                if w.startswith('ca:'):
+                    bases.append(f"tao::pegtl::change_action< act{w[3:]} >")
+                elif w == 'da':
+                    bases.append("tao::pegtl::disable_action")
+                elif w == 'ea':
+                    bases.append("tao::pegtl::enable_action")
+                elif w.startswith('ld:'):
+                    bases.append(f"tao::pegtl::limit_depth< {w[3:]} >")
+                    limit_ids[f"tao::pegtl::limit_depth< {w[3:]} >"] = (1000000 + 2 * int(w[3:]), "maximum parser rule nesting depth exceeded")
+                elif w.startswith('lb:'):
+                    bases.append(f"tao::pegtl::limit_bytes< {w[3:]} >")
+                    limit_ids[f"tao::pegtl::limit_bytes< {w[3:]} >"] = (1000001 + 2 * int(w[3:]), "maximum allowed rule consumption reached")
+                o.append(f"template<> struct act{f}< {nd.cpp} > : {', '.join(bases)} {{}};")
+        self._limit_ids = limit_ids
         o.append("template< typename R > struct ctl : vh::vcontrol< tag, R > {};")
         o.append("template< typename R > struct ctl_nu : vh::vcontrol_nounwind< tag, R > {};")
         o.append("inline void reg() {")
         for nid in sorted(self.nodes):
             o.append(f"  vh::reg< tag, {self.nodes[nid].cpp} >( {nid} );")
+        for cpp, (lid, msg) in sorted(limit_ids.items()):
+            o.append(f'  vh::messages()[ "{msg}" ] = {lid};')
         o.append("}")
         o.append("}")
         for nid in sorted(self.nodes):
             o.append(f"template<> inline constexpr int vh::vid< {ns}::tag, {self.nodes[nid].cpp} > = {nid};")
+        for cpp, (lid, msg) in sorted(limit_ids.items()):
+            o.append(f"template<> inline constexpr int vh::vid< {ns}::tag, {cpp} > = {lid};")
         return "\n".join(o) + "\n"
 
 
